@@ -189,6 +189,25 @@ class LibMixin:
                 if not self.ctx.branch(has, "module-has-attr"):
                     self.raise_("AttributeError", anchor)
                 return val
+            if ob0 is None and self.tag(v, "getattr-dyn") == "ref" and self.st.ghost.get("oneof_names") and \
+                    self.ctx.must(z3.Select(self.st.typeof, Val.r(v)) == self.table.id("proto")):
+                # getattr(message, message.WhichOneof(...)): one of the oneof's member fields
+                for cand in self.st.ghost["oneof_names"]:
+                    if self.ctx.branch(nm == VStr(cand), "oneof member " + cand):
+                        return self.getattr_(v, cand, node)
+                self.raise_("AttributeError", anchor)
+            if ob0 is None and self.tag(v, "getattr-dyn") == "ref":
+                # an agent object whose class customises attribute lookup: the lookup is that method's call
+                cid0 = self.class_of(v, "getattr-dyn-class")
+                ci0 = self.table.info.get(cid0)
+                mem0 = self.index.lookup_member(ci0, "__getattribute__") if ci0 is not None else None
+                if mem0:
+                    try:
+                        return self.call_function(mem0[1], None, [v, nm], {}, node)
+                    except PyRaise as ex:
+                        if default is not None and self.ctx.branch(self.exc_isa(ex.exc, "AttributeError"), "getattr-default"):
+                            return default
+                        raise
             dyn = self.contracts.get("extern:getattr-dynamic")
             if dyn is not None:
                 return dyn.model(self, args, kwargs, node, anchor)
@@ -495,15 +514,24 @@ class LibMixin:
         return self.b_dict_get([d, key, default], {}, node, anchor)
 
     def b_bytes_decode(self, args, kwargs, node, anchor):
+        """b.decode([encoding[, errors]]): bytes known to be the UTF-8 encoding of a text give that text back; otherwise
+        strict decoding may fail (UnicodeDecodeError) and the replacing handlers give some (encodable) text"""
         r0 = z3.simplify(Val.r(args[0]))
         known = self.st.ghost.get("encoded_bytes", {})
         enc = args[1] if len(args) > 1 else kwargs.get("encoding", VStr("utf-8"))
+        errors = args[2] if len(args) > 2 else kwargs.get("errors", VStr("strict"))
         if z3.is_int_value(r0) and r0.as_long() in known and (enc.eq(VStr("utf-8")) or enc.eq(VStr("utf8"))):
             return known[r0.as_long()]        # bytes produced by encoding this very text as UTF-8
+        es = z3.simplify(Val.s(errors))
+        handler = es.as_string() if z3.is_string_value(es) else None
         ok = z3.Function("Utf8Decodable", Val, B)(args[0])
+        dec = z3.Function("Decoded", Val, S)(args[0])
+        if handler in ("replace", "ignore", "backslashreplace"):
+            self.ctx.assume(z3.Function("Utf8Ok", S, B)(dec))
+            return Val.VStr(dec)
         if not self.ctx.branch(ok, "bytes-decodable"):
             self.raise_("UnicodeDecodeError", anchor)
-        return Val.VStr(z3.Function("Decoded", Val, S)(args[0]))
+        return Val.VStr(dec)
 
     def b_new_Lock(self, args, kwargs, node, anchor):
         return VRef(self.st.alloc(self.table.id("Lock")))
@@ -679,8 +707,19 @@ class LibMixin:
             # key function is called once per element (arbitrary element; may raise)
             idx = self.ctx.fresh("sort_i", I)
             self.ctx.assume(z3.And(idx >= 0, idx < n))
+            from .core import LogEntry
+            le = LogEntry("list.sort", [lst], dict(kwargs), None, anchor)
+            self.st.log.append(le)
             if self.ctx.branch(n > 0, "sort-nonempty"):
-                self.call_value(key, [self.list_get(r, idx)], {}, node, anchor=anchor + "/key")
+                el = self.list_get(r, idx)
+                esort = self.st.ghost.get("elem_sorts", {}).get(str(z3.simplify(lst)))
+                if esort is not None:
+                    self.assume_shape(el, esort)
+                kv = self.call_value(key, [el], {}, node, anchor=anchor + "/key")
+                le.args = [lst, el, kv]          # the arbitrary element and its key (for-each lifting)
+        else:
+            from .core import LogEntry
+            self.st.log.append(LogEntry("list.sort", [lst], dict(kwargs), None, anchor))
         # result: a permutation (contents abstracted, length kept)
         self.st.lel = z3.Store(self.st.lel, r, self.ctx.fresh("sorted", ArrIV))
         self.st.writes.append(("list", r, None))
@@ -816,9 +855,14 @@ class LibMixin:
     def b_bytes_hex(self, args, kwargs, node, anchor):
         return Val.VStr(z3.Function("HexOf", Val, S)(args[0]))
 
+    NEVER_FAILING_HANDLERS = ("backslashreplace", "replace", "ignore", "xmlcharrefreplace", "namereplace")
+
     def b_str_encode(self, args, kwargs, node, anchor):
-        """s.encode("utf-8"[, errors]): strict -> UnicodeEncodeError unless Utf8Ok(s); "backslashreplace" never fails
-        and yields the bytes of Utf8Escape(s) (encodable; equal to s when s is encodable)."""
+        """s.encode("utf-8"[, errors]).  strict: UnicodeEncodeError unless Utf8Ok(s).  The handlers that replace what
+        cannot be encoded never fail: "backslashreplace" yields the bytes of Utf8Escape(s) (encodable; equal to s when s is
+        encodable), the others some encodable text equal to s when s is encodable.  Any other handler (e.g.
+        "surrogateescape", which only copes with some of the un-encodable characters) may still fail on un-encodable text and
+        produces bytes that need not be valid UTF-8."""
         f = z3.Function("Utf8Ok", S, B)
         esc = z3.Function("Utf8Escape", S, S)
         enc = args[1] if len(args) > 1 else kwargs.get("encoding", VStr("utf-8"))
@@ -826,16 +870,31 @@ class LibMixin:
         if not (enc.eq(VStr("utf-8")) or enc.eq(VStr("utf8"))):
             raise Unsupported("encode to %s" % enc)
         s = Val.s(args[0])
-        if errors.eq(VStr("strict")):
+        es = z3.simplify(Val.s(errors))
+        handler = es.as_string() if z3.is_string_value(es) else None
+        rid = None
+        if handler == "strict":
             if not self.ctx.branch(f(s), "utf8-encodable"):
                 self.raise_("UnicodeEncodeError", anchor)
             text = args[0]
-        elif errors.eq(VStr("backslashreplace")):
+        elif handler == "backslashreplace":
             self.ctx.assume(z3.And(f(esc(s)), z3.Implies(f(s), esc(s) == s)))
             text = Val.VStr(esc(s))
+        elif handler in self.NEVER_FAILING_HANDLERS:
+            e2 = z3.Function("Utf8Repl_" + handler, S, S)
+            self.ctx.assume(z3.And(f(e2(s)), z3.Implies(f(s), e2(s) == s)))
+            text = Val.VStr(e2(s))
         else:
-            raise Unsupported("encode errors=%s" % errors)
-        rid = self.st.alloc(self.table.id("bytes"))
+            ok = z3.Function("EncOk_" + (handler or "unknown"), S, B)
+            self.ctx.assume(z3.Implies(f(s), ok(s)))
+            if not self.ctx.branch(ok(s), "encodable-with-handler"):
+                self.raise_("UnicodeEncodeError", anchor)
+            rid = self.st.alloc(self.table.id("bytes"))
+            if self.ctx.branch(f(s), "was-encodable-anyway"):
+                text = args[0]
+            else:
+                return VRef(rid)          # bytes that are not the UTF-8 encoding of any text
+        rid = self.st.alloc(self.table.id("bytes")) if rid is None else rid
         self.st.set_field(z3.IntVal(rid), "$text", text)
         self.st.writes.pop()
         self.st.ghost.setdefault("encoded_bytes", {})[rid] = text
@@ -944,6 +1003,16 @@ class LibMixin:
     def b_Event_set(self, args, kwargs, node, anchor):
         self.st.log.append(LogEntry("Event.set", list(args), kwargs, None, anchor))
         return VNone
+
+    def b_Event_wait(self, args, kwargs, node, anchor):
+        """Event.wait(timeout): True iff the event was set (by some thread) before the timeout ran out; a timeout that is
+        not a number is a TypeError"""
+        self.st.log.append(LogEntry("Event.wait", list(args), kwargs, None, anchor))
+        if len(args) > 1 and self.tag(args[1], "wait-timeout") not in ("int", "float", "none", "bool"):
+            self.raise_("TypeError", anchor)
+        res = Val.VBool(self.ctx.fresh("event_was_set", B))
+        self.st.log[-1].result = res
+        return res
 
     def b_Lock___enter__(self, args, kwargs, node, anchor):
         return VNone
